@@ -100,17 +100,18 @@ _PARSE_TB = [KERNEL, AXIOMS, TIE, HARNESS,
 
 PROPS["C04"] = {
     "id": "C04",
-    "lean_modules": ["JT.Props.C04"],
+    "lean_modules": ["JT.Props.C04", "JT.Props.C04Src"],
+    "extractors": ["golean"],
     "functional_ops": [],
     "rule": ("sequences of 1..6 valid unfragmented frames (both versions, bodies 0..1023 incl. escape-dense ones so that escaped frames exceed the 1023-byte read buffer, every phone shape) fed to a real packageParse "
              "byte by byte, frame by frame, coalesced to full 1023-byte reads, in 1..8-byte reads and in random 1..1023-byte reads, each read placed in the same reused buffer as the reader does; "
              "EXHAUSTIVELY every 1-cut and 2-cut of short streams (<= 60 bytes quick, <= 120 thorough). distinct = distinct sessions; non-trivial = session with at least 2 reads or 2 frames."),
-    "technique": "Lean 4 proof by induction over the reads (invariant: buffer = open remainder of the next frame; fast path coincides with buffered path) + differential correspondence through an add-only hook",
-    "level_text": ("Machine-checked Lean 4 theorems about a model of packageParse.unpack (fast path and buffered loop): for EVERY sequence of valid frames and EVERY partition of the byte stream into reads (any lengths), "
+    "technique": "Lean 4 proof by induction over the reads (invariant: buffer = open remainder of the next frame; fast path coincides with buffered path), carried over by proof to packageParse.unpack as TRANSLATED from the Go source on every run (translated code = model, loop invariants) + differential correspondence through an add-only hook",
+    "level_text": ("Machine-checked Lean 4 theorems about packageParse.unpack (fast path and buffered loop) — about a hand-written model and, through the theorem translated-code = model (source_unpack_is_model: never panics, same error flag, same pending bytes, same messages, for every buffer and every read), about the function as the Go->Lean translator renders it from /repo on every run (source_unpack_any_chunking): for EVERY sequence of valid frames and EVERY partition of the byte stream into reads (any lengths), "
                    "no error is reported, exactly one message per frame is delivered, in order, with the fields the frame decoder yields, nothing stays in the buffer; after any prefix of the reads the delivered messages are exactly "
                    "the frames whose closing delimiter has arrived (never earlier, never later); earlier outputs do not depend on later reads. The model is executed against the real packageParse on every run (same reused read buffer), "
                    "and the harness evaluates the property directly on the implementation (expected messages per read computed from the generated frames)."),
-    "level_note": "Trusted: Lean kernel; hand-written model of service/packet_parse.go tied by sampled correspondence; hook accessor; harness. Axioms: propext, Classical.choice, Quot.sound.",
+    "level_note": "Trusted: Lean kernel; the Go->Lean translator and JT/Go/Sem.lean (value semantics; the translator refuses code that writes through a shared pointer or an aliased slice, which is what makes value semantics right here); connection.reader itself (one unpack call per read, in order) is outside the translated part and is covered by the sampled socket-level checks; hook accessor; harness. Axioms: propext, Classical.choice, Quot.sound.",
     "trusted_base": _PARSE_TB,
     "assumptions": ["frames are valid: delimiters only at both ends and accepted by the frame decoder (C02 characterises these)", "the reader hands each read to parse exactly once, in order (connection.reader is covered by the socket-level checks)"],
     "shrink": False,
